@@ -1160,6 +1160,10 @@ def representatives():
         out.append(_rt(a(1, 2), t, dest="self"))
         out.append(_rt(a("../up", 1), t, fmt("{a}")))
         out.append(_rt(a("../../evil", 1), t))
+        # climbing out of the target after a leading ordinary component
+        out.append(_rt(a("../../evil", 1), t, fmt("a/{a}")))
+        out.append(_rt(a("../../evil", 1), t, call("a_value")))
+        out.append(_rt(a("x/../../../evil", 1), t, fmt("k/{job.sp.a}/{job.id}")))
         out.append(_rt(a(ABS_PLACEHOLDER, 1), t))
         out.append(_rt(a(ABS_PLACEHOLDER, 1), t, fmt("{a}")))
     out.append(_rt([{"a": 1}, {"a": 2, "b": 3}, {"b": 5}], "tar.gz", {"kind": "false"}, files=F))
